@@ -95,7 +95,7 @@ reg("C04", "exploration",
     "key roll-overs, re-registration). Every POST the transport seam delivers is verified by the model CA's independent JWS verifier: flattened shape, protected members, alg<->key, "
     "url == request URL, nonce in issued minus consumed, jwk xor kid discipline, signature under the key on record (fixed-width R||S). Non-trivial = at least one POST verified; "
     "ECDSA signatures with a leading-zero component are counted (reach by volume).",
-    quick=[("F1", 1200), ("F6k", 100000), ("F5", 250), ("F6", 250)], thorough=[("F1", 100000), ("F6k", 100000), ("F5", 30000), ("F6", 10000), ("F6x", 20000)],
+    quick=[("F1", 1200), ("F6k", 100000), ("F5", 250), ("F6", 250)], thorough=[("F1", 70000), ("F6k", 100000), ("F5", 30000), ("F6", 10000), ("F6x", 20000)],
     assumptions=["judged on fault-free families only: after an injected lost reply or failed nonce fetch the daemon legitimately re-uses its last nonce"])
 
 reg("C13", "exploration",
@@ -139,7 +139,7 @@ reg("C12", "exploration",
     "termination, newAccount ledger per (key, endpoint) (each extra registration paid by a distinct accountDoesNotExist answer or a binding change), nonce ledger (no POST carries a nonce "
     "consumed by another). Worker-thread counts are not a dimension: acmed has one task. Non-trivial = a run with at least two certificates; interleavings are counted as distinct hashes of "
     "the (resource, event-kind) sequence.",
-    quick=[("F5", 1000)], thorough=[("F5", 150000)],
+    quick=[("F5", 1000)], thorough=[("F5", 70000)],
     assumptions=["runtime worker threads (1, 2, 4, 16) cannot change which interleavings exist: nothing is spawned, all certificates are one FuturesUnordered inside block_on"])
 
 reg("C11", "exploration",
